@@ -15,10 +15,11 @@ Lemma lbl_good : good_node lbl_node.
 Proof. intros canc i m. simpl. destruct m as [[| |]| |]; try discriminate; destruct (i =? 0); discriminate. Qed.
 Lemma bare_good : good_node bare_node.
 Proof. intros canc i m. simpl. destruct m as [[| |]| |]; discriminate. Qed.
-Lemma tq_good : good_node tq_node.
+Lemma tq_good : forall checked, good_node (tq_node_gen checked).
 Proof.
-  intros canc i m. simpl. destruct m as [[| |ns nd nt]| |]; try discriminate.
-  unfold tq_on_msg. destruct (trace_row_safe ns nd nt); discriminate.
+  intros checked canc i m. simpl. destruct m as [[| |ns nd nt]| |]; try discriminate.
+  unfold tq_on_msg. destruct (checked && negb (trace_row_consistent ns nd nt)); [discriminate|].
+  destruct (trace_row_safe ns nd nt); discriminate.
 Qed.
 Lemma fwd_good : forall fl, good_node (fwd_node fl).
 Proof. intros fl canc i m. simpl. destruct m; discriminate. Qed.
@@ -71,69 +72,86 @@ Proof.
   apply nofault_on_of_nofault; [apply sink_nofault| |reflexivity].
   intros canc i m Hm. unfold sink_node. simpl. rewrite andb_false_r. simpl. rewrite Hm. reflexivity.
 Qed.
-(* the unrecovered body: safe exactly on consistent rows *)
-Lemma tq_nofault_on : nofault_node_on fmsg_ok tq_node.
+(* the unrecovered body as it was: safe exactly on rows whose arrays are long enough *)
+Lemma tq_nofault_on : forall checked, nofault_node_on fmsg_ok (tq_node_gen checked).
 Proof.
-  split.
-  - intros canc i m _ Hm. simpl. destruct m as [[| |ns nd nt]| |]; simpl; try (split; [try exact I; reflexivity|reflexivity]).
-    simpl in Hm. rewrite Hm. split; reflexivity.
+  intros checked. split.
+  - intros canc i m _ Hm. destruct m as [[| |ns nd nt]| |]; simpl; try (split; [try exact I; reflexivity|reflexivity]).
+    simpl in Hm. unfold tq_on_msg. destruct (checked && negb (trace_row_consistent ns nd nt)); [split; [exact I|reflexivity]|].
+    rewrite Hm. split; reflexivity.
   - intros canc i _. split; reflexivity.
 Qed.
-Lemma tq_faults_on_ragged_rows : ~ nofault_node tq_node.
+Lemma tq_faults_on_ragged_rows : ~ nofault_node (tq_node_gen false).
 Proof. intros [H _]. exact (H false 0 (FRow (FTrace 2 1 1)) eq_refl). Qed.
+(* with the comparison of the three lengths (51fb0f7): no fault, whatever the row *)
+Lemma consistent_safe : forall ns nd nt, trace_row_consistent ns nd nt = true -> trace_row_safe ns nd nt = true.
+Proof.
+  intros ns nd nt H. unfold trace_row_consistent in H. apply andb_prop in H. destruct H as [H1 H2].
+  apply Z.eqb_eq in H1. apply Z.eqb_eq in H2. subst. unfold trace_row_safe. rewrite !Z.leb_refl. reflexivity.
+Qed.
+Lemma tq_nofault : nofault_node tq_node.
+Proof.
+  split; [|reflexivity]. intros canc i m _. destruct m as [[| |ns nd nt]| |]; simpl; try reflexivity; try exact I.
+  unfold tq_on_msg. simpl. destruct (trace_row_consistent ns nd nt) eqn:E; simpl; [|exact I].
+  rewrite (consistent_safe _ _ _ E). reflexivity.
+Qed.
 
 (* ------------------------------------------------------------------ the chains *)
-Lemma fstages_good : forall c, Forall (fun x => good_node (c_node x)) (fstages c).
+Lemma fstages_good : forall k c, Forall (fun x => good_node (c_node x)) (fstages_gen k c).
 Proof.
-  intros c. destruct c; simpl;
+  intros k c. destruct c; simpl;
     repeat (fcons; [first [apply lbl_good | apply bare_good | apply tq_good | apply fwd_good | apply sink_good]|]); constructor.
 Qed.
-Lemma fstages_fresh : forall c, Forall fresh_stage (fstages c).
-Proof. intros c. destruct c; simpl; repeat (fcons; [split; reflexivity|]); constructor. Qed.
-Lemma fstages_pend : forall c, Forall (pend_ok fmsg_ok) (fstages c).
-Proof. intros c. destruct c; simpl; repeat (fcons; [first [exact I | reflexivity]|]); constructor. Qed.
-Lemma fstages_nofault_on : forall c, Forall (fun x => nofault_node_on fmsg_ok (c_node x)) (fstages c).
+Lemma fstages_fresh : forall k c, Forall fresh_stage (fstages_gen k c).
+Proof. intros k c. destruct c; simpl; repeat (fcons; [split; reflexivity|]); constructor. Qed.
+Lemma fstages_pend : forall k c, Forall (pend_ok fmsg_ok) (fstages_gen k c).
+Proof. intros k c. destruct c; simpl; repeat (fcons; [first [exact I | reflexivity]|]); constructor. Qed.
+Lemma fstages_nofault_on : forall k c, Forall (fun x => nofault_node_on fmsg_ok (c_node x)) (fstages_gen k c).
 Proof.
-  intros c. destruct c; simpl;
+  intros k c. destruct c; simpl;
     repeat (fcons; [first [apply lbl_nofault_on | apply bare_nofault_on | apply tq_nofault_on | apply fwd_nofault_on | apply sink_nofault_on]|]);
     constructor.
 Qed.
-Definition no_traceql_rows (c : fchain) : bool := match c with ChTraceQL | ChIter => false | _ => true end.
-Lemma fstages_nofault : forall c, no_traceql_rows c = true -> Forall (fun x => nofault_node (c_node x)) (fstages c).
+Lemma fstages_nofault : forall c, Forall (fun x => nofault_node (c_node x)) (fstages c).
 Proof.
-  intros c H. destruct c; try discriminate; simpl;
-    repeat (fcons; [first [apply lbl_nofault | apply bare_nofault | apply fwd_nofault | apply sink_nofault]|]); constructor.
+  intros c. destruct c; unfold fstages; simpl;
+    repeat (fcons; [first [apply lbl_nofault | apply bare_nofault | apply tq_nofault | apply fwd_nofault | apply sink_nofault]|]); constructor.
 Qed.
 
 Notation fconfig := (config Z fmsg).
 
-(* every chain, whatever arrives on its first channel: no goroutine is ever left behind *)
-Lemma fwd_chain_no_leak : forall (c : fchain) (rows : list fmsg),
-  let c0 := init_config rows (fstages c) in
+(* every chain, with or without the length comparison, whatever arrives on its first channel: no goroutine is ever left behind *)
+Lemma fwd_chain_no_leak : forall (k : bool) (c : fchain) (rows : list fmsg),
+  let c0 := init_config rows (fstages_gen k c) in
   Acc (fun c' c1 : fconfig => step c1 c') c0 /\
   forall cf, star c0 cf -> quiescent cf -> crashed cf = true \/ all_done (cells cf).
-Proof. intros c rows. apply chain_no_leak; auto using fstages_good, fstages_fresh. Qed.
+Proof. intros k c rows. apply chain_no_leak; auto using fstages_good, fstages_fresh. Qed.
 
-(* the label / series / tag / search-by-tags chains and the batch forwarders: no crash either, for all rows *)
-Lemma fwd_chain_terminates : forall (c : fchain) (rows : list fmsg), no_traceql_rows c = true ->
+(* the chains as the code is: no crash either, for ALL rows *)
+Lemma fwd_chain_terminates : forall (c : fchain) (rows : list fmsg),
   let c0 := init_config rows (fstages c) in
   Acc (fun c' c1 : fconfig => step c1 c') c0 /\
   forall cf, star c0 cf -> crashed cf = false /\ (quiescent cf -> all_done (cells cf)).
-Proof. intros c rows H. apply chain_terminates; auto using fstages_good, fstages_fresh, fstages_nofault. Qed.
+Proof. intros c rows. apply chain_terminates; unfold fstages; auto using fstages_good, fstages_fresh, fstages_nofault. Qed.
 
-(* every chain, the TraceQL ones included, on rows whose array columns are consistent *)
-Lemma fwd_chain_terminates_on : forall (c : fchain) (rows : list fmsg), forallb fmsg_ok rows = true ->
-  let c0 := init_config rows (fstages c) in
+(* before 51fb0f7: only on rows whose array columns are long enough (instance of the theorem relative to acceptable messages) *)
+Lemma fwd_chain_terminates_on : forall (k : bool) (c : fchain) (rows : list fmsg), forallb fmsg_ok rows = true ->
+  let c0 := init_config rows (fstages_gen k c) in
   Acc (fun c' c1 : fconfig => step c1 c') c0 /\
   forall cf, star c0 cf -> crashed cf = false /\ (quiescent cf -> all_done (cells cf)).
 Proof.
-  intros c rows H. apply (chain_terminates_on Z fmsg fmsg_ok); auto using fstages_good, fstages_fresh, fstages_pend, fstages_nofault_on.
+  intros k c rows H. apply (chain_terminates_on Z fmsg fmsg_ok); auto using fstages_good, fstages_fresh, fstages_pend, fstages_nofault_on.
 Qed.
 
-(* ------------------------------------------------------------------ the consistency of the rows is needed *)
+(* ------------------------------------------------------------------ the comparison of the lengths is needed *)
+Definition ragged_rows : list frow := [FTrace 1 1 1; FTrace 2 1 1].
 Definition ragged_request : frequest :=
-  mkF FTempoTraceQL (PNum 1700000040) (PNum 1700000340) false SelOk [FTrace 1 1 1; FTrace 2 1 1] (-1) false [Some 5] false false.
-Lemma traceql_ragged_row_crashes : fwd_outcome ragged_request = (OCrash, 2).
+  mkF FTempoTraceQL (PNum 1700000040) (PNum 1700000340) false SelOk ragged_rows (-1) false [Some 5] false false.
+(* without it the witness is a process crash (observed on the code before 51fb0f7: corpus traceql-ragged-arrays) *)
+Lemma traceql_ragged_row_crashed_before :
+  fst (run run_fuel false (cells (init_config (map FRow ragged_rows) (fstages_gen false ChTraceQL)))) = RCrash.
+Proof. vm_compute. reflexivity. Qed.
+Lemma traceql_ragged_row_answered : fwd_outcome ragged_request = (O2xx, 2).
 Proof. vm_compute. reflexivity. Qed.
 
 (* ------------------------------------------------------------------ bounded work: the statements a request issues *)
@@ -175,8 +193,8 @@ Definition typical_traces : list frow := map (fun i => FTrace (i mod 4) (i mod 4
 Definition freq (ep : fep) (sel : selk) (rows : list frow) (cx : list (option Z)) : frequest :=
   mkF ep (PNum 1700000040) (PNum 1700000340) false sel rows (-1) false cx false false.
 
-Example typical_rows_acceptable : forallb fmsg_ok (map FRow typical_traces) = true.
-Proof. vm_compute. reflexivity. Qed.
+Example typical_rows_acceptable : forallb fmsg_ok (map FRow typical_traces) = true /\ typical_traces <> [].
+Proof. split; [vm_compute; reflexivity|discriminate]. Qed.
 Example typical_forwarders_answer :
   map (fun ep => fwd_outcome (freq ep SelOk typical_strings []))
       [FLokiLabels; FLokiValues; FLokiSeries; FPromLabels; FPromValues; FPromSeries; FTempoTags; FTempoValues; FTempoSearchTags]
@@ -198,7 +216,7 @@ Definition class_obligation_all (c : body_class) : Prop :=
   match c with
   | BRowsForward => good_node lbl_node /\ nofault_node lbl_node /\ good_node bare_node /\ nofault_node bare_node
   | BChanForward => forall fl, good_node (fwd_node fl) /\ nofault_node (fwd_node fl)
-  | BTraceQLRows => good_node tq_node /\ nofault_node_on fmsg_ok tq_node
+  | BTraceQLRows => good_node tq_node /\ nofault_node tq_node
   (* BCloseOnly is the source cell of the LTS (sends what it holds, returns); BDrainer its drained state;
      BTail / BWsReader / BBackground are accounted by their census only *)
   | _ => True
@@ -207,6 +225,7 @@ Definition class_obligation_all (c : body_class) : Prop :=
 Lemma allowlisted_bodies_have_their_lemmas : forall a, In a allow_list -> class_obligation_all (a_class a).
 Proof.
   intros a Ha. split; [apply allowlisted_bodies_have_their_lemma; exact Ha|].
-  destruct (a_class a); auto using lbl_good, lbl_nofault, bare_good, bare_nofault, tq_good, tq_nofault_on.
-  intros fl. split; [apply fwd_good|apply fwd_nofault].
+  destruct (a_class a); auto using lbl_good, lbl_nofault, bare_good, bare_nofault.
+  - intros fl. split; [apply fwd_good|apply fwd_nofault].
+  - split; [apply (tq_good true)|apply tq_nofault].
 Qed.
